@@ -80,7 +80,17 @@ type scfB struct {
 	// 2 = the bundle age block, 3 = the previous node block (each only if the bundle has one), 4 = the
 	// payload block (always last; flags only). Unlisted extension blocks follow the listed ones.
 	Blk [][2]int
+	// Adm: 0 = an ordinary payload; otherwise the bundle carries the administrative-record flag and its
+	// payload is (see scfAdmPayload) 1 = a status report "received" about a bundle the node does not know,
+	// 2 = a status report "delivered" about such a bundle, 3 = a status report with a reason code this
+	// implementation does not know, 4 / 5 = a record of type 3 / 4 (another implementation's), 6 = no bytes
+	// at all, 7 = bytes that are no CBOR array, 8 = a record cut off after its type code, 9 = a CBOR array
+	// of three elements.  Only for received bundles without prescribed blocks (an administrative record
+	// must not carry the report flag on a block).
+	Adm int
 }
+
+const scfAdmKinds = 9
 
 const (
 	scfBkUnknown = 0
@@ -116,13 +126,21 @@ func (b scfB) blkS() []S {
 	return []S{LL(l)}
 }
 
+// a further optional trailing element of a rcv event: (adm kind)
+func (b scfB) admS() []S {
+	if b.Adm == 0 {
+		return nil
+	}
+	return []S{L(Sym("adm"), I(b.Adm))}
+}
+
 func (e scfEv) S() S {
 	switch e.Kind {
 	case "sub":
 		return LL(append(append([]S{Sym("sub")}, e.B.s()...), e.B.blkS()...))
 	case "rcv":
-		return LL(append(append(append([]S{Sym("rcv")}, e.B.s()...), I(e.From)), e.B.blkS()...))
-	case "sched", "fault":
+		return LL(append(append(append(append([]S{Sym("rcv")}, e.B.s()...), I(e.From)), e.B.blkS()...), e.B.admS()...))
+	case "sched", "fault", "conf":
 		return L(Sym(e.Kind), I(e.Mode))
 	case "dup":
 		return L(Sym("dup"), I(e.K), I(e.From))
@@ -141,10 +159,16 @@ func scfParseEv(s S) scfEv {
 	rb := func(opt int) {
 		e.B = scfB{TsMode: atomI(l[1]), Group: atomI(l[2]), Dst: atomI(l[3]), Prev: atomI(l[4]), Hop: atomI(l[5]),
 			Del: atomI(l[6]), Local: atomI(l[7]), Dead: atomI(l[8])}
-		if len(l) > opt {
-			for _, x := range l[opt].(sList)[1:] {
-				xl := x.(sList)
-				e.B.Blk = append(e.B.Blk, [2]int{atomI(xl[0]), atomI(xl[1])})
+		for _, tr := range l[minInt(opt, len(l)):] {
+			tl := tr.(sList)
+			switch atomSym(tl[0]) {
+			case "blk":
+				for _, x := range tl[1:] {
+					xl := x.(sList)
+					e.B.Blk = append(e.B.Blk, [2]int{atomI(xl[0]), atomI(xl[1])})
+				}
+			case "adm":
+				e.B.Adm = atomI(tl[1])
 			}
 		}
 	}
@@ -154,7 +178,7 @@ func scfParseEv(s S) scfEv {
 	case "rcv":
 		rb(10)
 		e.From = atomI(l[9])
-	case "sched", "fault":
+	case "sched", "fault", "conf":
 		e.Mode = atomI(l[1])
 	case "dup":
 		e.K, e.From = atomI(l[1]), atomI(l[2])
@@ -164,6 +188,13 @@ func scfParseEv(s S) scfEv {
 		e.Peer = atomI(l[1])
 	}
 	return e
+}
+
+func minInt(a, b int) int {
+	if a < b {
+		return a
+	}
+	return b
 }
 
 // a bundle handed to the node
@@ -195,8 +226,62 @@ func scfTagOf(b *bpv7.Bundle) int {
 	return k
 }
 
+// tagOf identifies a bundle the harness handed in: by its payload, or (a bundle flagged as administrative
+// record has a payload of its own) by its ID.
+func (h *scfRunner) tagOf(b *bpv7.Bundle) int {
+	if k := scfTagOf(b); k >= 0 {
+		return k
+	}
+	h.attMu.Lock()
+	defer h.attMu.Unlock()
+	if k, ok := h.byID[b.ID().String()]; ok {
+		return k
+	}
+	return -1
+}
+
+// scfAdmPayload: the payload of a bundle flagged as administrative record (scfB.Adm)
+func scfAdmPayload(kind, idx int) []byte {
+	var buf bytes.Buffer
+	report := func(item bpv7.StatusInformationPos, reason uint64) {
+		// about a bundle of another node which this node has never seen
+		ref := MkBundle(BOpt{Src: "dtn://n7/ref", Dst: "dtn://n6/in", TS: NowTS, Life: scfLifeLong, Payload: []byte("ref"), CRC: bpv7.CRC32})
+		ref.PrimaryBlock.CreationTimestamp = bpv7.NewCreationTimestamp(bpv7.DtnTime(700000000000+uint64(idx)), uint64(idx))
+		sr := bpv7.NewStatusReport(ref, item, bpv7.NoInformation, bpv7.DtnTimeNow())
+		sr.ReportReason = bpv7.StatusReportReason(reason)
+		if err := bpv7.GetAdministrativeRecordManager().WriteAdministrativeRecord(sr, &buf); err != nil {
+			panic(err)
+		}
+	}
+	switch kind {
+	case 1:
+		report(bpv7.ReceivedBundle, uint64(bpv7.NoInformation))
+	case 2:
+		report(bpv7.DeliveredBundle, uint64(bpv7.NoRouteToDestination))
+	case 3:
+		report(bpv7.DeletedBundle, 200)
+	case 4: // [3, [idx]]
+		buf.Write([]byte{0x82, 0x03, 0x81, 0x18, byte(idx)})
+	case 5: // [4, h'..']
+		buf.Write([]byte{0x82, 0x04, 0x42, byte(idx), byte(idx >> 8)})
+	case 6:
+	case 7:
+		buf.Write([]byte{0xff, 0x00, 'a', 'd', 'm', byte(idx)})
+	case 8:
+		buf.Write([]byte{0x82, 0x01})
+	default:
+		buf.Write([]byte{0x83, 0x01, 0x80, byte(idx) & 0x17})
+	}
+	return buf.Bytes()
+}
+
+// does this implementation read the record (the expectation the tags adm-readable / adm-unreadable report)
+func scfAdmReadable(kind int) bool { return kind == 1 || kind == 2 }
+
 type scfRunner struct {
 	alg     string
+	inspect bool           // the Core's inspectAllBundles option ((conf 1) as first event)
+	byID    map[string]int // bundle ID -> index, for bundles whose payload is not the harness' tag
 	n       *Node
 	t0      uint64
 	epoch   int
@@ -245,7 +330,7 @@ func (h *scfRunner) fails(peer, mode int, rec *SendRec) bool {
 	f := h.fails0(peer, mode, rec)
 	if f {
 		atomic.AddInt32(&h.nfailed, 1)
-		if idx := scfTagOf(&rec.Bndl); idx >= 0 && h.sched != nil {
+		if idx := h.tagOf(&rec.Bndl); idx >= 0 && h.sched != nil {
 			h.sched.noteFailed(peer, idx, rec)
 		}
 	}
@@ -260,7 +345,7 @@ func (h *scfRunner) quiesce() {
 }
 
 func (h *scfRunner) fails0(peer, mode int, rec *SendRec) bool {
-	idx := scfTagOf(&rec.Bndl)
+	idx := h.tagOf(&rec.Bndl)
 	h.attMu.Lock()
 	key := [2]int{peer, idx}
 	a := h.att[key]
@@ -305,7 +390,12 @@ func (h *scfRunner) mkBundleE(spec scfB, idx int, received bool, epoch int, seq 
 		t.life = scfLifeShort
 	}
 	bl := bpv7.Builder().CRC(bpv7.CRC32).Source(src).Destination(dst).
-		Lifetime(time.Duration(t.life) * time.Millisecond).PayloadBlock(scfTag(idx))
+		Lifetime(time.Duration(t.life) * time.Millisecond)
+	if spec.Adm != 0 {
+		bl = bl.BundleCtrlFlags(bpv7.AdministrativeRecordPayload).PayloadBlock(scfAdmPayload(spec.Adm, idx))
+	} else {
+		bl = bl.PayloadBlock(scfTag(idx))
+	}
 	// Build refuses a bundle whose lifetime is over: build it alive, make it old afterwards
 	if spec.TsMode == 0 {
 		t.ts = 0
@@ -373,6 +463,11 @@ func (h *scfRunner) mkBundleE(spec scfB, idx int, received bool, epoch int, seq 
 		}
 	}
 	t.b = b
+	if spec.Adm != 0 {
+		h.attMu.Lock()
+		h.byID[b.ID().String()] = idx
+		h.attMu.Unlock()
+	}
 	// (recorded now: the Core works on the block array of the bundle it is handed, in place)
 	for _, cb := range b.CanonicalBlocks {
 		t.blks = append(t.blks, L(B(bpv7.GetExtensionBlockManager().IsKnown(cb.TypeCode())), U(uint64(cb.BlockControlFlags))))
@@ -446,7 +541,12 @@ func (t *scfTB) desc() S {
 	if t.hl >= 0 {
 		hop = L(I(t.hl), I(t.hc))
 	}
-	return L(I(t.idx), I(t.spec.Local), I(t.spec.Dst), I(prev), U(t.ts), U(t.life), age, hop, I(t.spec.Del), I(t.spec.Dead), LL(t.blks))
+	d := []S{I(t.idx), I(t.spec.Local), I(t.spec.Dst), I(prev), U(t.ts), U(t.life), age, hop, I(t.spec.Del), I(t.spec.Dead), LL(t.blks)}
+	if t.spec.Adm != 0 {
+		// the record kind and whether this implementation can read the payload (a tag; the rule does not depend on it)
+		d = append(d, L(I(t.spec.Adm), B(scfAdmReadable(t.spec.Adm))))
+	}
+	return LL(d)
 }
 
 func (h *scfRunner) sentKey() string {
@@ -456,15 +556,22 @@ func (h *scfRunner) sentKey() string {
 	return "routing/" + h.alg + "/sent"
 }
 
-func (h *scfRunner) status() S {
+func (h *scfRunner) status() S { return h.statusOf(h.tracked) }
+
+// scfSparseFrom: in a history with more bundles than this, the record of a submit / receive event lists
+// the status of the new bundle only (the handler touches no other item; the checker carries the last
+// recorded status of the others forward); every other event lists all of them.
+const scfSparseFrom = 48
+
+func (h *scfRunner) statusOf(ts []*scfTB) S {
 	var l []S
 	st := h.n.Core.VerifStore()
-	for _, t := range h.tracked {
+	for _, t := range ts {
 		known, pending := false, false
 		var sent []int
 		if bi, err := st.QueryId(t.b.ID()); err == nil && len(bi.Parts) > 0 {
 			// (a stored bundle whose lifetime is over cannot be read back: ParseBundle validates it)
-			if sb, err := bi.Parts[0].Load(); (err == nil && scfTagOf(&sb) == t.idx) || (err != nil && t.spec.Dead == 1) {
+			if sb, err := bi.Parts[0].Load(); (err == nil && h.tagOf(&sb) == t.idx) || (err != nil && t.spec.Dead == 1) {
 				known, pending = true, bi.Pending
 				if eids, ok := bi.Properties[h.sentKey()].([]bpv7.EndpointID); ok {
 					for _, e := range eids {
@@ -496,7 +603,7 @@ var scfOnce sync.Once
 
 // The store directory: a memory-backed file system when there is one (every store update is an
 // fsync; on a shared disk that dominates the run time), the check's work directory otherwise.
-func scfNewNode(conf routing.RoutingConf) *Node {
+func scfNewNode(conf routing.RoutingConf, inspect bool) *Node {
 	scfOnce.Do(func() { storage.VerifSetMemtableSize(256 << 10) })
 	n := &Node{ID: MustEID(scfNode(0)), Conf: conf, Peers: map[string]*MockCLA{}, ownDir: true}
 	if d, err := ioutil.TempDir("/dev/shm", "scfnode"); err == nil {
@@ -504,14 +611,46 @@ func scfNewNode(conf routing.RoutingConf) *Node {
 	} else {
 		n.Dir = workDir()
 	}
-	n.open()
+	scfOpen(n, inspect)
 	return n
 }
 
+// scfOpen is Node.open with the Core's inspectAllBundles option as a parameter (cmd/dtnd hands the
+// configuration's inspect-all-bundles to NewCore).
+func scfOpen(n *Node, inspect bool) {
+	c, err := routing.NewCore(n.Dir, n.ID, inspect, n.Conf, nil)
+	if err != nil {
+		panic(err)
+	}
+	c.VerifStopCron()
+	n.Core = c
+}
+
+// scfRestart is Node.Restart for a node opened by scfOpen.
+func scfRestart(n *Node, inspect bool) {
+	n.closeAgents()
+	n.Core.Close()
+	n.Peers = map[string]*MockCLA{}
+	n.Agents = nil
+	scfOpen(n, inspect)
+}
+
+// the events at the head of a history that configure the run
+func scfPseudo(k string) bool { return k == "sched" || k == "fault" || k == "conf" }
+
 // run one history; returns the observation list and whether it took suspiciously long
 func scfRun(alg string, evs []scfEv, salt uint64) (S, bool) {
-	h := &scfRunner{alg: alg, up: map[int]int{}, att: map[[2]int]int{}, salt: salt, clas: map[int]*scfCLA{}}
-	h.n = scfNewNode(scfConf(alg))
+	h := &scfRunner{alg: alg, up: map[int]int{}, att: map[[2]int]int{}, salt: salt, clas: map[int]*scfCLA{}, byID: map[string]int{}}
+	nsub := 0
+	for i, e := range evs {
+		if e.Kind == "conf" && (i == 0 || scfPseudo(evs[i-1].Kind)) {
+			h.inspect = e.Mode == 1
+		}
+		if e.Kind == "sub" || (e.Kind == "rcv" && e.B.TsMode == 0) {
+			nsub++ // (counts the bundles that bind the history to the 20 s below)
+		}
+	}
+	h.n = scfNewNode(scfConf(alg), h.inspect)
 	defer func() {
 		if h.sched != nil {
 			h.sched.faultEnd()
@@ -530,7 +669,11 @@ func scfRun(alg string, evs []scfEv, salt uint64) (S, bool) {
 		if h.sched != nil {
 			h.sched.beginEvent()
 		}
+		var newTB *scfTB
 		switch e.Kind {
+		case "conf":
+			// the Core was created with this option (first event of the history)
+			head = []S{Sym("conf"), U(now), I(e.Mode)}
 		case "sched", "fault":
 			// the first events of a history (run one at a time, see scfJobs.run): what follows runs under
 			// schedule control / with a failing part-file write
@@ -553,11 +696,13 @@ func scfRun(alg string, evs []scfEv, salt uint64) (S, bool) {
 			h.n.Event++
 			h.n.Core.SendBundle(&t.b) // the sequence number is assigned to t.b
 			h.tracked = append(h.tracked, t)
+			newTB = t
 			head = []S{Sym("sub"), U(now), t.desc()}
 		case "rcv":
 			t := h.mkBundle(e.B, len(h.tracked), true)
 			h.n.Receive(t.b, scfNode(e.From))
 			h.tracked = append(h.tracked, t)
+			newTB = t
 			head = []S{Sym("rcv"), U(now), t.desc(), I(e.From)}
 		case "dup":
 			// (a bundle an application submitted with a foreign source is dropped at once; it has no ID a
@@ -611,7 +756,7 @@ func scfRun(alg string, evs []scfEv, salt uint64) (S, bool) {
 			head = []S{Sym("tickc"), U(now)}
 		case "restart":
 			h.quiesce()
-			h.n.Restart()
+			scfRestart(h.n, h.inspect)
 			h.up = map[int]int{}
 			h.clas = map[int]*scfCLA{}
 			h.epoch++
@@ -657,7 +802,11 @@ func scfRun(alg string, evs []scfEv, salt uint64) (S, bool) {
 			}
 		}
 		if settled == nil {
-			settled = h.status()
+			if newTB != nil && len(h.tracked) > scfSparseFrom {
+				settled = h.statusOf([]*scfTB{newTB})
+			} else {
+				settled = h.status()
+			}
 		}
 		// sends of this event, in a canonical order
 		type srec struct {
@@ -668,7 +817,7 @@ func scfRun(alg string, evs []scfEv, salt uint64) (S, bool) {
 		other := 0
 		for _, s := range h.n.SendsSince(before) {
 			b := s.Bndl
-			idx := scfTagOf(&b)
+			idx := h.tagOf(&b)
 			if idx < 0 {
 				other++ // routing metadata bundles of prophet
 				continue
@@ -692,7 +841,15 @@ func scfRun(alg string, evs []scfEv, salt uint64) (S, bool) {
 			obs = append(obs, LL(atReturn))
 		}
 	}
-	slow := uint64(bpv7.DtnTimeNow())-h.t0 > 20000
+	// (the 20 s are the IdKeeper's - a submitted bundle's timestamp must not fall out of its window - and
+	// the age block's: UpdateBundleAge lets the age of a clock-less bundle grow a thousand times too fast
+	// (C06), 24 h are over after 86 s; a history of received, timestamped bundles only has until the
+	// lifetimes are over)
+	limit := uint64(20000)
+	if nsub == 0 {
+		limit = 600000
+	}
+	slow := uint64(bpv7.DtnTimeNow())-h.t0 > limit
 	return LL(obs), slow
 }
 
@@ -727,12 +884,27 @@ func (j *scfJobs) run(o *Out) {
 		}()
 	}
 	controlled := func(jb *scfJob) bool {
-		return len(jb.evs) > 0 && (jb.evs[0].Kind == "sched" || jb.evs[0].Kind == "fault")
+		for _, e := range jb.evs {
+			if !scfPseudo(e.Kind) {
+				break
+			}
+			if e.Kind != "conf" {
+				return true
+			}
+		}
+		return false
 	}
+	// (the long histories first: the pool does not end on one of them running alone; the cases are
+	// written in the order of the list all the same)
+	var par []*scfJob
 	for _, jb := range j.l {
 		if !controlled(jb) {
-			ch <- jb
+			par = append(par, jb)
 		}
+	}
+	sort.SliceStable(par, func(a, b int) bool { return len(par[a].evs) > len(par[b].evs) })
+	for _, jb := range par {
+		ch <- jb
 	}
 	close(ch)
 	wg.Wait()
@@ -1054,6 +1226,105 @@ func scfRaceHist(r *Rng, zero bool) []scfEv {
 	return h
 }
 
+// Core configurations: the inspectAllBundles option of NewCore (cmd/dtnd: inspect-all-bundles) x bundles in
+// transit that carry the administrative-record flag, with payloads this implementation reads, does not
+// read, and with none.  One received bundle per payload kind (and two ordinary ones), some for a far node,
+// some for n1 / n4, with a relay connected before (shape 0) or only after (shape 1) they arrive; then
+// retries, a further peer, a restart, further peers, the destinations.
+func scfConfHist(r *Rng, inspect, shape int) []scfEv {
+	h := []scfEv{{Kind: "conf", Mode: inspect}}
+	if shape == 0 {
+		h = append(h, scfEv{Kind: "up", Peer: 2, Mode: 0})
+	}
+	kinds := r.Perm(scfAdmKinds + 2)
+	for _, k := range kinds {
+		b := scfB{TsMode: r.Intn(2), Group: 1 + r.Intn(2), Dst: scfNoNode, Prev: 3}
+		if k < scfAdmKinds {
+			b.Adm = k + 1
+		}
+		switch r.Intn(4) {
+		case 0:
+			b.Dst = 1
+		case 1:
+			b.Dst = 4
+		}
+		if r.Intn(4) == 0 {
+			b.Hop = 1
+		}
+		h = append(h, scfEv{Kind: "rcv", B: b, From: 3})
+	}
+	if shape == 1 {
+		h = append(h, scfEv{Kind: "tickp"}, scfEv{Kind: "up", Peer: 2, Mode: []int{0, 2}[r.Intn(2)]})
+	}
+	h = append(h, scfEv{Kind: "tickp"}, scfEv{Kind: "up", Peer: 3, Mode: 0}, scfEv{Kind: "tickp"}, scfEv{Kind: "restart"},
+		scfEv{Kind: "up", Peer: 2, Mode: 0}, scfEv{Kind: "up", Peer: 4, Mode: []int{0, 2}[r.Intn(2)]}, scfEv{Kind: "tickp"},
+		scfEv{Kind: "up", Peer: 1, Mode: 0}, scfEv{Kind: "tickp"})
+	return h
+}
+
+// a random history under a configuration: some of the received bundles in transit become administrative records
+func scfRandomConf(r *Rng, n, inspect int) []scfEv {
+	h := scfRandom(r, n)
+	for i := range h {
+		if h[i].Kind == "rcv" && len(h[i].B.Blk) == 0 && h[i].B.Dst != 0 && r.Intn(2) == 0 {
+			h[i].B.Adm = 1 + r.Intn(scfAdmKinds)
+		}
+	}
+	return append([]scfEv{{Kind: "conf", Mode: inspect}}, h...)
+}
+
+// Large backlogs: n bundles accepted and waiting at once, most of them for a node that never appears, a few
+// (anywhere in the order of acceptance, hence of the store's indices) for n1 and n4; loaded with nobody
+// connected (shape 0) or with a relay connected that is handed every one of them at once (shape 1: "all
+// peers have it already"); then retry ticks, the destination n1, a new relay, a restart, n4, n1 again.
+func scfBulkHist(r *Rng, n, inspect int) []scfEv {
+	var h []scfEv
+	if inspect >= 0 {
+		h = append(h, scfEv{Kind: "conf", Mode: inspect})
+	}
+	shape := r.Intn(3) / 2
+	if shape == 1 {
+		h = append(h, scfEv{Kind: "up", Peer: 2, Mode: 0})
+	}
+	special := map[int]int{}
+	for i := 0; i < 6; i++ {
+		special[r.Intn(n)] = 1
+	}
+	for i := 0; i < 3; i++ {
+		special[r.Intn(n)] = 4
+	}
+	special[n-1-r.Intn(2)] = 1 // the youngest ones too
+	for i := 0; i < n; i++ {
+		// (timestamped bundles only: a backlog takes its time, see the limit in scfRun)
+		b := scfB{TsMode: 1, Group: 1 + i%3, Dst: scfNoNode, Prev: 3}
+		if d, ok := special[i]; ok {
+			b.Dst = d
+		}
+		if i%11 == 5 {
+			b.Hop = 1
+		}
+		if i%37 == 7 && inspect >= 0 {
+			b.Adm = 1 + r.Intn(scfAdmKinds)
+		}
+		h = append(h, scfEv{Kind: "rcv", B: b, From: 3})
+	}
+	okOrFirstFails := func() int { return []int{0, 0, 2}[r.Intn(3)] }
+	switch r.Intn(3) {
+	case 0:
+		h = append(h, scfEv{Kind: "up", Peer: 1, Mode: 0}, scfEv{Kind: "tickp"}, scfEv{Kind: "up", Peer: 4, Mode: okOrFirstFails()},
+			scfEv{Kind: "tickp"}, scfEv{Kind: "restart"}, scfEv{Kind: "up", Peer: 3, Mode: 0}, scfEv{Kind: "up", Peer: 1, Mode: 0})
+	case 1:
+		h = append(h, scfEv{Kind: "tickp"}, scfEv{Kind: "up", Peer: 4, Mode: 0}, scfEv{Kind: "up", Peer: 1, Mode: okOrFirstFails()},
+			scfEv{Kind: "tickp"}, scfEv{Kind: "tickp"})
+	default:
+		h = append(h, scfEv{Kind: "tickp"}, scfEv{Kind: "restart"}, scfEv{Kind: "tickp"}, scfEv{Kind: "up", Peer: 1, Mode: okOrFirstFails()},
+			scfEv{Kind: "tickp"}, scfEv{Kind: "up", Peer: 2, Mode: 0}, scfEv{Kind: "up", Peer: 4, Mode: 0})
+	}
+	return h
+}
+
+var scfBulkSizes = []int{100, 128, 129, 200, 256, 257}
+
 func genC05scf(o *Out, r *Rng, thorough bool) {
 	if os.Getenv("SCF_DEBUG") != "" { // debugging aid for replays: the Core's own log
 		log.SetOutput(os.Stderr)
@@ -1081,7 +1352,10 @@ func genC05scf(o *Out, r *Rng, thorough bool) {
 			if atomSym(l[2]) != "hist" {
 				continue
 			}
-			alg := strings.Replace(atomSym(l[3]), "_", "-", -1)
+			alg := atomSym(l[3])
+			if alg == "sensor_mule" {
+				alg = "sensor-mule"
+			}
 			var evs []scfEv
 			for _, e := range l[5].(sList) {
 				evs = append(evs, scfParseEv(e))
@@ -1165,6 +1439,45 @@ func genC05scf(o *Out, r *Rng, thorough bool) {
 		for _, alg := range scfAlgs {
 			jobs.add(alg, scfRandom(r, 10+r.Intn(31)), r.U64()%1000)
 		}
+	}
+	// 4. configurations: the Core with and without inspectAllBundles x administrative records in transit
+	for _, alg := range scfAlgs {
+		for inspect := 0; inspect < 2; inspect++ {
+			for shape := 0; shape < 2; shape++ {
+				jobs.add(alg, scfConfHist(r, inspect, shape), 0)
+			}
+		}
+	}
+	nrc := 2
+	if thorough {
+		nrc = 40
+	}
+	for i := 0; i < nrc; i++ {
+		for _, alg := range scfAlgs {
+			jobs.add(alg, scfRandomConf(r, 10+r.Intn(31), (i+1)%2), r.U64()%1000)
+		}
+	}
+	// 5. large backlogs: sizes around powers of two and round numbers (quick: one size per algorithm, the
+	// assignment rotating with the seed, and one more of 130..249 for epidemic; thorough: every size for every
+	// algorithm, 500 and 1000 for three of them)
+	rotB := r.Intn(len(scfBulkSizes))
+	for i, alg := range scfAlgs {
+		if thorough {
+			for _, n := range scfBulkSizes {
+				jobs.add(alg, scfBulkHist(r, n, r.Intn(3)-1), r.U64()%1000)
+			}
+			continue
+		}
+		jobs.add(alg, scfBulkHist(r, scfBulkSizes[(i+rotB)%len(scfBulkSizes)], r.Intn(3)-1), r.U64()%1000)
+	}
+	if thorough {
+		for _, alg := range []string{"epidemic", "spray", "dtlsr"} {
+			jobs.add(alg, scfBulkHist(r, 500, -1), r.U64()%1000)
+			jobs.add(alg, scfBulkHist(r, 1000, -1), r.U64()%1000)
+		}
+		jobs.add("prophet", scfBulkHist(r, 130+r.Intn(400), 1), r.U64()%1000)
+	} else {
+		jobs.add("epidemic", scfBulkHist(r, 130+r.Intn(120), r.Intn(2)), r.U64()%1000)
 	}
 }
 
